@@ -501,6 +501,25 @@ pub fn clone_spec(b: &Built, sc: &Scenario, archive: String) -> CloneSpec {
         buffered: sc.buffered,
         retries: None,
         verbose: false,
+        // Options that must not change what is fetched or written when nothing goes wrong:
+        // a generous timeout, a retry budget, a custom header, verbosity.
+        extra: {
+            let mut e = Vec::new();
+            let k = sc.src_seed >> 11;
+            if k % 3 == 1 {
+                e.extend(["--http-timeout".to_string(), "600".to_string()]);
+            }
+            if k % 4 == 2 {
+                e.extend(["--http-retry-count".to_string(), "2".to_string(), "--http-retry-delay".to_string(), "1".to_string()]);
+            }
+            if k % 5 == 3 {
+                e.extend(["--http-header".to_string(), "X-Verif: 1".to_string()]);
+            }
+            if k % 7 == 4 {
+                e.push("-vv".to_string());
+            }
+            e
+        },
     }
 }
 
